@@ -251,3 +251,124 @@ Theorem elem_bg_winner :
 Proof. exact CascadeDom.elem_bg_winner. Qed.
 Print Assumptions elem_bg_winner.
 
+
+(* presentational attributes through the cascade (Proofs/AttrColours.v): the value of color= /
+   bgcolor= in its four forms, and the cell it wins *)
+From H2T Require Import Base Tagged Wrap Sub Css Dom Render Api CssParse Proofs.CssTotal Proofs.WrapInv Proofs.RenderWidth Proofs.Conserve Proofs.Footnotes Proofs.AnnBalance Proofs.RenderConserve Proofs.OptionRel Proofs.Compose Proofs.RenderTotal Proofs.FragStream Proofs.SimRel Proofs.Prune Proofs.AttrColours.
+
+Theorem color_attr_hash6 :
+  forall h c1 c2 c3 c4 c5 c6 : chr,
+       cp h = 35 ->
+       hexc c1 ->
+       hexc c2 ->
+       hexc c3 ->
+       hexc c4 ->
+       hexc c5 ->
+       hexc c6 ->
+       parse_color_attribute [h; c1; c2; c3; c4; c5; c6] =
+       Ok (Some (hv c1 * 16 + hv c2, hv c3 * 16 + hv c4, hv c5 * 16 + hv c6)).
+Proof. exact AttrColours.color_attr_hash6. Qed.
+Print Assumptions color_attr_hash6.
+
+Theorem color_attr_hash3 :
+  forall h c1 c2 c3 : chr,
+       cp h = 35 ->
+       hexc c1 ->
+       hexc c2 ->
+       hexc c3 -> parse_color_attribute [h; c1; c2; c3] = Ok (Some (hv c1 * 17, hv c2 * 17, hv c3 * 17)).
+Proof. exact AttrColours.color_attr_hash3. Qed.
+Print Assumptions color_attr_hash3.
+
+Theorem color_attr_nohash6 :
+  forall c1 c2 c3 c4 c5 c6 : chr,
+       hexc c1 ->
+       hexc c2 ->
+       hexc c3 ->
+       hexc c4 ->
+       hexc c5 ->
+       hexc c6 ->
+       ws c1 = false ->
+       ws c6 = false ->
+       parse_color_attribute [c1; c2; c3; c4; c5; c6] =
+       Ok (Some (hv c1 * 16 + hv c2, hv c3 * 16 + hv c4, hv c5 * 16 + hv c6)).
+Proof. exact AttrColours.color_attr_nohash6. Qed.
+Print Assumptions color_attr_nohash6.
+
+Theorem color_attr_hash_optional :
+  forall h c1 c2 c3 c4 c5 c6 : chr,
+       cp h = 35 ->
+       hexc c1 ->
+       hexc c2 ->
+       hexc c3 ->
+       hexc c4 ->
+       hexc c5 ->
+       hexc c6 ->
+       ws c1 = false ->
+       ws c6 = false ->
+       parse_color_attribute [c1; c2; c3; c4; c5; c6] = parse_color_attribute [h; c1; c2; c3; c4; c5; c6].
+Proof. exact AttrColours.color_attr_hash_optional. Qed.
+Print Assumptions color_attr_hash_optional.
+
+Theorem bgcolor_attr_cell :
+  forall (sd : styledata) (p : list anc) (pre : list (text * text)) (k v : text)
+         (post : list (text * text)) (c : N * N * N),
+       cps k = s_bgcolor ->
+       parse_color_attribute v = Ok (Some c) ->
+       no_attr s_style (pre ++ (k, v) :: post) = true ->
+       no_attr s_bgcolor post = true ->
+       Forall (fun d : Cascade.cdecl (N * N * N) => Cascade.cd_important d = false)
+         (CascadeDom.proj CascadeDom.st_bg None (CascadeDom.applicable sd p [])) ->
+       exists inl : list styledecl,
+         inline_styles (pre ++ (k, v) :: post) = Ok inl /\
+         c_bg (cs_core (computed_style sd p inl)) =
+         {| ws_val := Some c; ws_origin := OAuthor; ws_spec := spec_inline; ws_important := false |}.
+Proof. exact AttrColours.bgcolor_attr_cell. Qed.
+Print Assumptions bgcolor_attr_cell.
+
+Theorem color_attr_cell :
+  forall (sd : styledata) (p : list anc) (pre : list (text * text)) (k v : text)
+         (post : list (text * text)) (c : N * N * N),
+       cps k = s_colorattr ->
+       parse_color_attribute v = Ok (Some c) ->
+       no_attr s_style (pre ++ (k, v) :: post) = true ->
+       no_attr s_colorattr post = true ->
+       Forall (fun d : Cascade.cdecl (N * N * N) => Cascade.cd_important d = false)
+         (CascadeDom.proj CascadeDom.st_colour None (CascadeDom.applicable sd p [])) ->
+       exists inl : list styledecl,
+         inline_styles (pre ++ (k, v) :: post) = Ok inl /\
+         c_colour (cs_core (computed_style sd p inl)) =
+         {| ws_val := Some c; ws_origin := OAuthor; ws_spec := spec_inline; ws_important := false |}.
+Proof. exact AttrColours.color_attr_cell. Qed.
+Print Assumptions color_attr_cell.
+
+Theorem bgcolor_elem_bg :
+  forall (sd : styledata) (d : deco) (name : text) (pre : list (text * text)) 
+         (k v : text) (post : list (text * text)) (idx : Z) (p : list anc) (c : N * N * N),
+       let attrs := pre ++ (k, v) :: post in
+       let me := {| a_name := name; a_attrs := attrs; a_idx := idx |} :: p in
+       d_colours d = true ->
+       cps k = s_bgcolor ->
+       parse_color_attribute v = Ok (Some c) ->
+       no_attr s_style attrs = true ->
+       no_attr s_bgcolor post = true ->
+       Forall (fun d0 : Cascade.cdecl (N * N * N) => Cascade.cd_important d0 = false)
+         (CascadeDom.proj CascadeDom.st_bg None (CascadeDom.applicable sd me [])) ->
+       CascadeDom.elem_bg sd true inline_styles d me = Some c.
+Proof. exact AttrColours.bgcolor_elem_bg. Qed.
+Print Assumptions bgcolor_elem_bg.
+
+Theorem color_elem_fg :
+  forall (sd : styledata) (d : deco) (name : text) (pre : list (text * text)) 
+         (k v : text) (post : list (text * text)) (idx : Z) (p : list anc) (c : N * N * N),
+       let attrs := pre ++ (k, v) :: post in
+       let me := {| a_name := name; a_attrs := attrs; a_idx := idx |} :: p in
+       d_colours d = true ->
+       cps k = s_colorattr ->
+       parse_color_attribute v = Ok (Some c) ->
+       no_attr s_style attrs = true ->
+       no_attr s_colorattr post = true ->
+       Forall (fun d0 : Cascade.cdecl (N * N * N) => Cascade.cd_important d0 = false)
+         (CascadeDom.proj CascadeDom.st_colour None (CascadeDom.applicable sd me [])) ->
+       CascadeDom.elem_fg sd true inline_styles d me = Some c.
+Proof. exact AttrColours.color_elem_fg. Qed.
+Print Assumptions color_elem_fg.
